@@ -164,6 +164,28 @@ func cmdCheck(args []string) {
 	var samples []interface{}
 	var perObl []map[string]interface{}
 	bySolver := map[string]int{}
+	// return-reachability probes (thorough tier): infeasible individual returns are normal under path splitting; only
+	// a function none of whose probed returns is reachable has a contradictory contract/invariant
+	retReach := map[string][2]int{} // func -> {reachable, unreachable}
+	for _, o := range obls {
+		if o.Kind == "vacuity" && strings.HasSuffix(o.Name, ".reach") && strings.Contains(o.Name, "/ret") && o.Result != nil {
+			c := retReach[o.Func]
+			switch o.Result.Status {
+			case "nonvacuous":
+				c[0]++
+			case "vacuous":
+				c[1]++
+			}
+			retReach[o.Func] = c
+		}
+	}
+	for _, o := range obls {
+		if o.Kind == "vacuity" && strings.HasSuffix(o.Name, ".reach") && strings.Contains(o.Name, "/ret") && o.Result != nil && o.Result.Status == "vacuous" {
+			if c := retReach[o.Func]; c[0] > 0 {
+				o.Result.Status = "unreachable-return" // informational
+			}
+		}
+	}
 	for _, o := range obls {
 		r := o.Result
 		ok := r.Status == "proved" || r.Status == "nonvacuous"
